@@ -159,10 +159,13 @@ class C10Part(qw.WirePart):
         for l, o in zip(hist, impl_out):
             if l.startswith("deser "):
                 d = self.deser_info(l)
+                self.count("images_" + d["src"])
                 if len(d["hex"]) > 16:
                     sig.add((d["kind"], d["src"], min(len(d["hex"]) // 128, 8)))
             else:
                 g = qw.parse_img(o) if o.startswith("IMG ") else None
+                if g:
+                    self.count("images_live")
                 if g and g["size"] > 8:
                     sig.add((g["kind"], "live", min(g["size"] // 64, 8)))
         return tuple(sorted(sig)) if sig else None
@@ -195,6 +198,10 @@ class C10Quant(Spec):
 
     def parts(self):
         return PARTS
+
+    def extra_stages(self, rep, tier, rng, broken):
+        for p in PARTS:
+            p._rep, p.stats = rep, {}
 
 
 SPEC = C10Quant()
